@@ -224,8 +224,46 @@ def _layout(repo, col, R="R-C01-layout"):
             col.check(gs.eq(s0) and ge.eq(e0), R, mfi, f"{m}(b) for the indexer built by {cls}",
                       f"spans {what}",
                       f"`idx.{m}(b)` spans [{gs}, {ge}) but the tridiagonal kernels must sweep {what}", node=mfi.node)
-    # equal-width assertion
+    # what _consecutive_indices(start, end) returns: row b = start[b], start[b]+1, ..., end[b]-1 (the accessors above were
+    # evaluated with this meaning; here the body is held to it)
     cfi = repo.method("JaxleySolveIndexer", "_consecutive_indices")
+    cex = idx.expander(repo, cfi)
+    from sa.termalg import term_rat as _trat
+    ps_ = [p_ for p_ in cfi.params if p_ != "self"]
+    main = next((r_ for r_, gs in zip(cex.returns, cex.return_guards)
+                 if T.find(r_, lambda x: x.op == "mcall" and x.name == "arange") is not None), None)
+    if main is None or len(ps_) != 2:
+        col.unk(R, cfi, "_consecutive_indices(start, end): rows start .. end-1", "main return value not found", node=cfi.node)
+    else:
+        S_, E_ = ps_
+        is_n = lambda x: x.op == "binop" and x.name == "-" and x.args[0].op == "param" and x.args[0].name == E_ and \
+            x.args[1].op == "param" and x.args[1].name == S_
+        rep = T.find(main, lambda x: x.op == "mcall" and x.name == "repeat" and len(x.args) == 3)
+        ar = T.find(main, lambda x: x.op == "mcall" and x.name == "arange" and len(x.args) == 2)
+        rs = T.find(main, lambda x: x.op == "mcall" and x.name == "reshape")
+        ok_rep = rep is not None and rep.args[1].op == "param" and rep.args[1].name == S_ and is_n(rep.args[2])
+        ok_ar = ar is not None and ar.args[1].op == "sub" and is_n(ar.args[1].args[0]) and ar.args[1].args[1].op == "const" and ar.args[1].args[1].name == 0
+        # reshape(repeat(...), (-1, n0)) + arange(n0): a SUM of the repeated starts and the offsets 0..n0-1
+        def leaf(x):
+            if rs is not None and x is rs:
+                return Rat.atom("starts")
+            if x.op == "mcall" and x.name == "astype" and ar is not None and T.find(x, lambda y: y is ar) is not None:
+                return Rat.atom("offs")
+            if ar is not None and x is ar:
+                return Rat.atom("offs")
+            return None
+        try:
+            form = _trat(main, leaf)
+            ok_sum = form.eq(Rat.atom("starts") + Rat.atom("offs"))
+        except Und:
+            ok_sum = False
+        ok_shape = rs is not None and len(rs.args) >= 3 and rs.args[1] is rep and rs.args[2].op == "tuple" and len(rs.args[2].args) == 2 and \
+            rs.args[2].args[1].op == "sub" and is_n(rs.args[2].args[1].args[0])
+        col.check(ok_rep and ok_ar and ok_sum and ok_shape, R, cfi, "_consecutive_indices(start, end): row b lists start[b], start[b]+1, ..., end[b]-1",
+                  "reshape(repeat(start, end - start), (-1, n)) + arange(n), n = (end - start)[0]",
+                  f"_consecutive_indices returns {main.short(160)} (repeat ok: {ok_rep}, offsets ok: {ok_ar}, sum ok: {ok_sum}, shape ok: {ok_shape}): "
+                  f"the sweeps of the tridiagonal kernels would run over other slots than the blocks the writer filled", node=cfi.node)
+    # equal-width assertion
     has_assert = any(isinstance(n_, ast.Assert) for n_ in walk_no_nested(cfi.node))
     col.check(has_assert, R, cfi, "branches of unequal width are refused", "assertion present",
               "the equal-width assertion of _consecutive_indices was removed: levels of unequal padded width would be "
